@@ -318,9 +318,24 @@ func (g *Gen) zero(t types.Type) string {
 		}
 		return g.mkStruct(t, vals)
 	case *types.Array:
-		return fmt.Sprintf("((as const (Array Int %s)) %s)", g.sortOf(u.Elem()), g.zero(u.Elem()))
+		return g.constArray("Int", g.sortOf(u.Elem()), g.zero(u.Elem()))
 	}
 	return "0"
+}
+
+// constArray: constant array; cvc5 accepts only values as the element of `as const`, so for element
+// terms that mention declared constants (the empty abstract string) a named array with an axiom is used.
+func (g *Gen) constArray(idxSort, elemSort, elem string) string {
+	if !strings.Contains(elem, "st.empty") {
+		return fmt.Sprintf("((as const (Array %s %s)) %s)", idxSort, elemSort, elem)
+	}
+	name := fmt.Sprintf("|zarr:%s:%s:%x|", idxSort, elemSort, hashStr(elem))
+	if !g.declared[name] {
+		g.declared[name] = true
+		g.decls = append(g.decls, fmt.Sprintf("(declare-const %s (Array %s %s))", name, idxSort, elemSort),
+			fmt.Sprintf("(assert (forall ((i %s)) (! (= (select %s i) %s) :pattern ((select %s i)))))", idxSort, name, elem, name))
+	}
+	return name
 }
 
 func (g *Gen) intLit(v *big.Int, bits int) string {
